@@ -29,7 +29,7 @@ def gen_case(r, kind):
     c["temp"] = r.choice([300.0, 150.0, 600.0, 1000.0, 75.5])
     c["tol"] = r.choice([0.5, 0.25, 0.125, 0.375, 1.0])
     c["dt"] = r.choice([0.5, 1.0, 2.0])
-    c["tsf"] = r.choice([1, 1, 2, 3, 4]) if kind != "frozen" else r.choice([1, 2, 4])
+    c["tsf"] = r.choice([1, 1, 2, 3, 4, 5, 6, 7, 12]) if kind != "frozen" else r.choice([1, 2, 4, 3, 6])
     bigdt = c["dt"] * c["tsf"]
     c["tau"] = bigdt * r.choice([8.0, 16.0, 32.0, 12.5, 100.0])
     c["damping"] = 0.0
@@ -43,7 +43,10 @@ def gen_case(r, kind):
     c["running"] = 0 if kind == "norun" else 1
     c["outvel"] = 1 if r.random() < 0.3 else 0
     c["outen"] = 1 if r.random() < 0.3 else 0
-    nsteps = r.randint(10, 28)
+    nsteps = max(r.randint(10, 28), 6 * c["tsf"] + r.randint(0, 6))
+    if kind not in ("drift", "realbias", "badconfig") and r.random() < 0.4:
+        # the job does not start at step 0: small offsets (not multiples of the factor) and step numbers beyond int / unsigned / double-exact ranges
+        c["start_step"] = r.choice([1, 2, 3, 5, 7, 11, 2 ** 31 - 2, 2 ** 31 + 1, 2 ** 32 - 3, 2 ** 32 + 5, 2 ** 53 - 1, 2 ** 53 + 7, 2 ** 62 - 200])
     if kind == "badconfig":
         # one input check of init_extended_Lagrangian fails (or, one time in five, none does)
         which = r.choice(["temp", "tol", "tau", "damping", "none"])
@@ -123,11 +126,17 @@ def gen_case(r, kind):
         gl.append(V.dyadic(r, -3, 3, bits=5))
     c["events"] = ev
     c["gauss"] = gl
+    if kind in ("free", "langevin", "reflect") and r.random() < 0.3 and len(ev) > 8:
+        # the engine changes its time step in the middle of the session (update_engine_parameters)
+        jj = r.randint(3, len(ev) - 3)
+        if not ev[jj]["boundary"]:
+            c["dt_change"] = (jj, c["dt"] * r.choice([0.5, 2.0, 0.75]))
+            return c
     if kind == "free" and c["tsf"] == 1 and r.random() < 0.6 and len(ev) > 6:
         # the engine declares a new initial step in the middle of the session: the number of steps since the last update no longer
         # equals the factor and update_extended_Lagrangian() raises its factor error (the update is skipped, the bias force stays on the atoms)
         jj = r.randint(3, len(ev) - 2)
-        if not ev[jj]["boundary"] and awake_steps(c)[jj - 1][1] >= 2:
+        if not ev[jj]["boundary"] and awake_steps(c)[jj - 1][1] - c.get("start_step", 0) >= 2:
             # (at least two steps done: the new relative step 1 can be taken neither for a repetition nor for the successor of the last update)
             c["setstep_at"] = (jj, r.choice([0, 100, 1000]))
     return c
@@ -165,13 +174,33 @@ def gen_realbias(r, c):
     (bypasses by default; with the user's setting on/off)"""
     c["tsf"], c["same"], c["sub"], c["damping"] = 1, 0, 0, 0.0
     c["lower"], c["upper"], c["rlo"], c["rup"], c["per"] = 0.0, 2.0, 0, 0, 0
-    kind = r.choice(["harmonic", "linear", "harmonicWalls", "harmonicWalls", "harmonicWalls", "abf", "metadynamics", "abmd", "opes_metad", "histogram", "alb"])
+    kind = r.choice(["harmonic", "linear", "harmonicWalls", "harmonicWalls", "harmonicWalls", "abf", "metadynamics", "abmd", "opes_metad", "histogram", "alb", "twowalls", "twowalls"])
+    if kind == "twowalls":
+        # two biases of the same kind on the variable, one bypassing the coordinate and one acting on it; one of them is deleted in mid-run
+        bs = []
+        for n_, (user, lo_, up_) in enumerate([(None, 0.75, 1.25), (False, 0.875, 1.125)]):
+            k_ = r.choice([0.5, 1.0, 2.0])
+            body = ["name b%d" % n_, "lowerWalls %r" % lo_, "upperWalls %r" % up_, "forceConstant %r" % k_] + ([] if user is None else ["bypassExtendedLagrangian off"])
+            bs.append({"kw": "harmonicWalls", "k": k_, "user": user, "lo": lo_, "up": up_, "tsf": 1, "body": body, "name": "b%d" % n_})
+        c["biases"] = bs
+        x = V.dyadic(r, 0.5, 1.5, bits=6)
+        ev = []
+        for t in range(r.randint(12, 20)):
+            if t > 0 and r.random() < 0.8:
+                x = min(1.9, max(0.1, x + V.dyadic(r, -0.25, 0.25, bits=6)))
+            ev.append({"boundary": 0, "running": 1, "x": x, "fb": 0.0, "fba": 0.0})
+        c["events"] = ev
+        c["gauss"] = [0.0]
+        if r.random() < 0.7:
+            c["delete_bias"] = (r.randint(3, len(ev) - 3), r.choice([0, 1]))
+        return c
     generic = {"abf": ["fullSamples 2", "historyFreq 0"], "metadynamics": ["hillWeight 0.5", "hillWidth 1.0", "newHillFrequency 2"],
                "abmd": ["forceConstant 2.0", "stoppingValue 1.75"], "opes_metad": ["barrier 5", "newHillFrequency 2", "gaussianSigma 0.2"], "histogram": [],
                "alb": ["centers 1.0", "updateFrequency 4"]}
     if kind in generic:
         # the force is read from the bias object itself (its physics belongs to other properties); what is checked is its routing
-        c["biases"] = [{"kw": kind, "k": 0.0, "user": None, "generic": True, "body": generic[kind]}]
+        tb = r.choice([1, 1, 2, 3]) if kind not in ("abf",) else 1
+        c["biases"] = [{"kw": kind, "k": 0.0, "user": None, "generic": True, "tsf": tb, "body": generic[kind] + (["timeStepFactor %d" % tb] if tb > 1 else [])}]
         c["lower"], c["upper"] = 0.0, 2.0
         x = V.dyadic(r, 0.5, 1.5, bits=6)
         ev = []
@@ -195,6 +224,9 @@ def gen_realbias(r, c):
         b["user"] = r.choice([None, None, True, False, False])
         if b["user"] is not None:
             b["body"].append("bypassExtendedLagrangian %s" % ("on" if b["user"] else "off"))
+    b["tsf"] = r.choice([1, 1, 2, 3])
+    if b["tsf"] > 1:
+        b["body"].append("timeStepFactor %d" % b["tsf"])      # the bias sleeps between its steps and applies its force times the factor
     c["biases"] = [b]
     x = V.dyadic(r, 0.5, 1.5, bits=6)
     ev = []
@@ -223,26 +255,40 @@ def bias_force(c, b, bypass, x_rep, x_actual):
 
 
 def fill_real_forces(c, recs, table):
-    """forces that the real bias applied at each step, routed by its bypass flag (table = regenerated from the binary)"""
-    b = c["biases"][0]
-    ent = table.get(b["kw"].lower(), (0, 0))
-    bypass = bool(ent[1]) if b["user"] is None else (b["user"] and bool(ent[0]))
-    for e, rec in zip(c["events"], recs):
+    """forces that the real biases applied at each step, each routed by its bypass flag (table = regenerated from the binary) and summed"""
+    flags = []
+    for b in c["biases"]:
+        ent = table.get(b["kw"].lower(), (0, 0))
+        flags.append(bool(ent[1]) if b["user"] is None else (b["user"] and bool(ent[0])))
+    for (j_, it_, aw_), e, rec in zip(awake_steps(c), c["events"], recs):
         if rec is None:
             return False
-        bf = [t_ for t_ in rec.get("bf", []) if t_[0] == b["kw"].lower()]
-        if len(bf) != 1 or bool(bf[0][2]) != bypass:
-            c["bf_problem"] = "bias object reports %r, the table/user setting gives bypass=%r" % (bf, bypass)
-            return False
-        if b.get("generic"):
-            F = bf[0][1]
-        else:
-            F = bias_force(c, b, bypass, rec["x_rep"], e["x"])
-            if not close(F, bf[0][1]):
-                c["bf_problem"] = "documented force %r on the value the bias must see, the bias computed %r" % (F, bf[0][1])
+        alive = [n_ for n_ in range(len(c["biases"])) if not (c.get("delete_bias") and c["delete_bias"][1] == n_ and j_ >= c["delete_bias"][0])]
+        fb = fba = 0.0
+        for kw in sorted(set(c["biases"][n_]["kw"] for n_ in alive)):
+            mine = [n_ for n_ in alive if c["biases"][n_]["kw"] == kw]
+            bf = [t_ for t_ in rec.get("bf", []) if t_[0] == kw.lower()]
+            if len(bf) != len(mine) or any(bool(t_[2]) != flags[n_] for t_, n_ in zip(bf, mine)):
+                c["bf_problem"] = "bias objects report %r, the table/user settings give bypass=%r for the %d live biases of that kind" % (bf, [flags[n_] for n_ in mine], len(mine))
                 return False
-        e["fb"], e["fba"] = (0.0, F) if bypass else (F, 0.0)
-    c["bypass"] = bypass
+            for t_, n_ in zip(bf, mine):
+                b = c["biases"][n_]
+                if b.get("generic"):
+                    F = t_[1]
+                else:
+                    F = b.get("tsf", 1) * bias_force(c, b, flags[n_], rec["x_rep"], e["x"]) if it_ % b.get("tsf", 1) == 0 else 0.0
+                    if not close(F, t_[1]):
+                        c["bf_problem"] = "documented force %r of bias %d on the value it must see, the bias computed %r" % (F, n_, t_[1])
+                        return False
+                if flags[n_]:
+                    fba += F
+                else:
+                    fb += F
+        if [t_ for t_ in rec.get("bf", []) if t_[0] not in set(c["biases"][n_]["kw"].lower() for n_ in alive)]:
+            c["bf_problem"] = "a deleted bias is still reported: %r" % (rec.get("bf"),)
+            return False
+        e["fb"], e["fba"] = fb, fba
+    c["bypass"] = flags[0]
     c["nonzero_bias_force"] = any(e_["fb"] != 0.0 or e_["fba"] != 0.0 for e_ in c["events"])
     return True
 
@@ -250,7 +296,7 @@ def fill_real_forces(c, recs, table):
 def awake_steps(c):
     """(engine step index, absolute step) for the steps on which the variable is awake"""
     out = []
-    it = 0
+    it = c.get("start_step", 0)                           # the engine's first step (set_initial_step before the first calc)
     ss = c.get("setstep_at")
     for j, e in enumerate(c["events"]):
         if ss and j == ss[0]:
@@ -264,14 +310,12 @@ def awake_steps(c):
 def step_origin(c, j):
     """absolute step of relative step 0 at engine step j (changes when the engine declares a new initial step)"""
     ss = c.get("setstep_at")
-    return ss[1] if (ss and j >= ss[0]) else 0
+    return ss[1] if (ss and j >= ss[0]) else c.get("start_step", 0)
 
 
-def scenario(c, tag):
-    auto = c.get("auto_state") and c.get("resume_at") is not None
-    L = ["echo CASE %s" % tag, "natoms 1", "dt %r" % c["dt"], "temperature 300", "samestep %d" % c["same"],
-         ("prefix %s" % tag) if auto else "prefix", "restartfreq %d" % (c["auto_state"] if auto else 0),
-         "gauss " + " ".join(hx(g) for g in c["gauss"]), "xnew", "config EOF", "scriptedColvarForces on",
+def cfg_lines(c):
+    """xnew + the configuration of the variable (and of the real biases, if any)"""
+    L = ["xnew", "config EOF", "scriptedColvarForces on",
          "colvar {", "  name v", "  timeStepFactor %d" % c["tsf"],
          "  lowerBoundary %r" % c["lower"], "  upperBoundary %r" % c["upper"], "  width %r" % c["width"],
          "  extendedLagrangian on", "  extendedFluctuation %r" % c["tol"], "  extendedTimeConstant %r" % c["tau"],
@@ -293,6 +337,19 @@ def scenario(c, tag):
     for b in c.get("biases", []):
         L += ["%s {" % b["kw"], "  colvars v"] + ["  " + x_ for x_ in b["body"]] + ["}"]
     L += ["EOF"]
+    return L
+
+
+def resumed_case(c):
+    """the configuration of the job that loads the state: the same, or legally different (c['resume_cfg'])"""
+    return dict(c, **c["resume_cfg"]) if c.get("resume_cfg") else c
+
+
+def scenario(c, tag):
+    auto = c.get("auto_state") and c.get("resume_at") is not None
+    L = ["echo CASE %s" % tag, "natoms 1", "dt %r" % c["dt"], "temperature 300", "samestep %d" % c["same"],
+         ("prefix %s" % tag) if auto else "prefix", "restartfreq %d" % (c["auto_state"] if auto else 0),
+         "gauss " + " ".join(hx(g) for g in c["gauss"])] + cfg_lines(c)
     cfg_start = L.index("xnew")
     tsf = float(c["tsf"])
     if not c.get("running", 1):
@@ -307,17 +364,23 @@ def scenario(c, tag):
         o.append("xstep")
         return o
     K = c.get("resume_at")
+    if c.get("start_step"):
+        L.append("setstep %d" % c["start_step"])
     for j, e in enumerate(c["events"]):
         if K is not None and j == K:
             break
         if c.get("setstep_at") and j == c["setstep_at"][0]:
             L.append("setstep %d" % c["setstep_at"][1])
+        if c.get("delete_bias") and j == c["delete_bias"][0]:
+            L.append("script cv bias b%d delete" % c["delete_bias"][1])
+        if c.get("dt_change") and j == c["dt_change"][0]:
+            L.append("dt %r" % c["dt_change"][1])
         L += ev_lines(e)
     if K is not None:
         # events 0..K-1 have been executed; event K-1 is executed again by a new object that loaded the state saved after it
         st = ("%s.colvars.state" % tag) if auto else ("%s.state" % tag)
         if not auto:
-            L += ["save text %s" % st]                      # otherwise: the file written from within calc() at the last step
+            L += ["save %s %s" % ("binary" if c.get("binary") else "text", st)]      # otherwise: the file written from within calc() at the last step
         else:
             L += ["prefix", "restartfreq 0"]
         if c.get("reload"):
@@ -327,7 +390,9 @@ def scenario(c, tag):
             L += ["echo RESUME", "load %s" % st]
         else:
             L += ["echo RESUME"]
-            L += L[cfg_start:L.index("EOF", L.index("config EOF") + 1) + 1]
+            if c.get("resume_cfg") and "dt" in c["resume_cfg"]:
+                L += ["dt %r" % c["resume_cfg"]["dt"]]
+            L += cfg_lines(resumed_case(c))
             L += ["load %s" % st]
         L += ["gauss " + " ".join(hx(g) for g in c["resume_gauss"])]
         if not c.get("running", 1):
@@ -366,7 +431,12 @@ def model_line(c, restart=None):
         st = it - (restart[1] if restart is not None else step_origin(c, j))
         xj = e["x"] + (c.get("restart_shift", 0.0) if (restart is not None and j == restart[0]) else 0.0)
         ins.append("%d %s %s %s %s %d" % (st, hx(xj), hx(tsf * e["fb"]), hx(tsf * e["fba"]), hx(rnd), e["running"]))
-    rs = "0 0x0p+0 0x0p+0 0x0p+0 0" if restart is None else "1 %s %s %s %d" % (hx(restart[2]), hx(restart[3]), hx(restart[4] if len(restart) > 4 else 0.0), restart[1])
+    if restart is None:
+        rs = "0 0x0p+0 0x0p+0 0x0p+0 %d" % step_origin(c, 0)
+    elif restart[2] is None:
+        rs = "2 0x0p+0 0x0p+0 %s %d" % (hx(restart[4] if len(restart) > 4 else 0.0), restart[1])      # state without extended values
+    else:
+        rs = "1 %s %s %s %d" % (hx(restart[2]), hx(restart[3]), hx(restart[4] if len(restart) > 4 else 0.0), restart[1])
     return "%s %s %s %s %s %s %d %s %s %d %d %s %d %s %s %d %d %s %d %s" % (
         hx(KB), hx(c["temp"]), hx(c["tol"]), hx(c["tau"]), hx(c["damping"]), hx(c["dt"]), c["tsf"],
         hx(c["lower"]), hx(c["upper"]), c["rlo"], c["rup"], hx(c["width"]), c["per"], hx(c["P"]), hx(c["ctr"]),
@@ -398,7 +468,7 @@ def parse_impl(out):
                 rec = {"it": int(w[1]), "err": int(w[2]), "awake": int(w[3])}
                 names = ["x_rep", "v_rep", "epot", "ekin", "ft", "fr", "f", "fz", "energy", "x_ext", "v_ext", "k", "m", "gamma", "sigma"]
                 for n_, t in zip(names, w[4:]):
-                    rec[n_] = float.fromhex(t)
+                    rec[n_] = float("nan") if t == "notset" else float.fromhex(t)      # x_ext before the variable's first update
                 res[cur][1].append(rec)
             except ValueError:
                 res[cur][1].append(None)
@@ -458,7 +528,9 @@ def oracles(run, c, recs, scn, first_event=0, resumed=False):
     bigdt = c["dt"] * tsf
     aw = awake_steps(c)[first_event:]
     gu = gauss_used(c)
-    first = recs[0]
+    if resumed and not any(a_ for (j_, it_, a_), rec_ in zip(aw, recs)):
+        return                                             # the variable is not updated any more in this part
+    first = ([rec_ for (j_, it_, a_), rec_ in zip(aw, recs) if a_ and rec_ is not None] + [recs[0]])[0]
     if not (close(first["k"], k, 1e-12) and close(first["m"], m, 1e-12)):
         run.violation("params:k-m", "force constant/mass %r/%r differ from the documented kB*T/sigma^2 = %r and kB*T*(tau/(2 pi sigma))^2 = %r"
                       % (first["k"], first["m"], k, m), rep)
@@ -520,7 +592,7 @@ def oracles(run, c, recs, scn, first_event=0, resumed=False):
             if not (x == clamp(c, e["x"]) and v == 0.0):
                 run.violation("init:start", "the first step starts from (%r,%r), not from the clamped value %r of the variable and zero velocity" % (x, v, clamp(c, e["x"])), rep)
                 return
-        if c.get("setstep_at") and j == c["setstep_at"][0] and prev is not None and prev[2] >= 2:
+        if c.get("setstep_at") and j == c["setstep_at"][0] and prev is not None and prev[2] - c.get("start_step", 0) >= 2:
             # (after earlier repetitions of step 0 or 1 the new relative step 1 is a legitimate successor: no error then)
             # factor guard: relative step it - origin, last update at relative step prev: error iff their difference is neither 0 nor the factor
             run.dist("steps-raising-the-factor-error")
@@ -830,8 +902,8 @@ def compare(run, c, tag, scn, impl, mline, mout, first_event=None):
     except Exception:
         run.mismatch("model:output", {"model_case": mline}, "-", mout[:200])
         return None
-    r0 = recs[0]
-    if r0 is not None:
+    r0 = ([x_ for x_ in recs if x_ is not None and x_["awake"]] + [recs[0]])[0]
+    if r0 is not None and (not resumed or r0["awake"]):
         for nm, a, b in zip(["k", "m", "gamma", "sigma"], [r0["k"], r0["m"], r0["gamma"], r0["sigma"]], prm):
             if not close(a, b, 1e-12):
                 run.mismatch("params:" + nm, {"scenario": scn, "model_case": mline}, a, b)
@@ -849,13 +921,15 @@ def compare(run, c, tag, scn, impl, mline, mout, first_event=None):
         for fld in FIELDS:
             if fld == "energy" and c.get("biases"):
                 continue                                   # the engine's energy also contains the bias energy
-            if resumed and c.get("reload") and not rec["awake"] and fld in ("epot", "ekin", "ft"):
+            if resumed and c.get("reload") and not rec["awake"] and (fld in ("epot", "ekin", "ft") or (fld in ("x_rep", "v_rep") and math.isnan(rec["x_ext"]))):
+                continue
+            if resumed and c.get("stale_until_awake") and not rec["awake"] and fld in ("epot", "ekin", "ft", "x_rep", "v_rep"):
                 continue                                   # stale fields of the old trajectory, shown (not used) until the first update
             a, b = rec[fld], ms[fld]
             if fld == "err":
                 same = (a == b)
             else:
-                same = close(a, b, 1e-8 if resumed else TOL) or (a == b)
+                same = close(a, b, 1e-8 if resumed else TOL) or (a == b) or (math.isnan(a) and math.isnan(b))
                 exact = exact and (a == b)
             if not same:
                 run.mismatch("step:" + fld, {"scenario": scn, "model_case": mline, "engine_step": j + first_event}, a, b)
@@ -898,7 +972,12 @@ def witness_cases():
     # C17_reflect_periodic_one_sided_refuted: periodic variable, only the lower boundary reflecting
     w4 = dict(base, kind="witness-periodic-one-sided", rlo=1, rup=0, per=1, P=4.0, ctr=0.0, lower=-1.0, upper=1.0, width=0.25, tau=64.0)
     w4["events"] = [{"boundary": 0, "running": 1, "x": 1.5, "fb": 4.0, "fba": 0.0} for t in range(24)]
-    return [w1, w2, w3, w4]
+    # C17_resume_before_first_update: the job starts between two steps of the variable, the state is written before its first update
+    w5 = dict(base, kind="witness-resume-before-first-update", tsf=3, rlo=0, rup=0, tau=48.0, start_step=4, resume_at=2)
+    w5["events"] = [{"boundary": 0, "running": 1, "x": 0.5 + 0.0625 * t, "fb": 0.5, "fba": 0.0} for t in range(12)]
+    w6 = dict(w5, kind="witness-resume-before-first-update-huge", start_step=2 ** 53 + 7, tsf=7, tau=112.0, resume_at=3)
+    w6["events"] = [dict(e_) for e_ in w5["events"]] + [{"boundary": 0, "running": 1, "x": 1.0, "fb": 0.0, "fba": 0.0} for t in range(12)]
+    return [w1, w2, w3, w4, w5, w6]
 
 
 def add_resume(r, c):
@@ -911,20 +990,37 @@ def add_resume(r, c):
         last = [j for j in range(K) if aw[j][2]]
         nxt_ = [j for j in range(K, len(ev)) if aw[j][2]]
         if not last:
-            return False
+            return True                                    # the state is written before the variable's first update
         return (not nxt_) or abs(pdiff(c, ev[nxt_[0]]["x"] - ev[last[-1]]["x"])) <= 0.49 * c["width"]
     cand = [K for K in range(1, len(ev)) if (aw[K - 1][2] or (r.random() < 0.7 and sleeping_ok(K)))]
+    early = [K for K in range(1, len(ev)) if not any(aw[j][2] for j in range(K))]
+    if early and r.random() < 0.5:
+        cand = early                                        # state written before the variable's first update
     nxt = [K for K in cand if ev[K]["boundary"]]
     if nxt and r.random() < 0.4:
         cand = nxt                                           # the restart step is repeated at a run boundary
-    if not cand or c["kind"] in ("drift", "drift-twin", "realbias", "badconfig") or c.get("setstep_at"):
+    if not cand or c["kind"] in ("drift", "drift-twin", "realbias", "badconfig") or c.get("setstep_at") or c.get("dt_change"):
         return
     c["resume_at"] = r.choice(cand)
     m = r.random()
     it_k = aw[c["resume_at"] - 1][1]
-    if m > 0.7 and it_k >= 1:
+    if m > 0.7 and it_k - c.get("start_step", 0) >= 1 and it_k < 2 ** 31:
         c["auto_state"] = it_k                             # colvarsRestartFrequency: the state written from within calc() at that step
         return
+    if r.random() < 0.25 and not c["per"]:
+        # the job that loads the state has other parameters for the extended coordinate (the state carries only x_ext, v_ext)
+        o_ = {}
+        if r.random() < 0.6:
+            o_["tol"] = c["tol"] * r.choice([0.5, 2.0])
+        if r.random() < 0.6:
+            o_["tau"] = c["tau"] * r.choice([0.5, 2.0, 1.5])
+        if c["damping"] != 0.0 and r.random() < 0.6:
+            o_["damping"] = c["damping"] * r.choice([0.5, 4.0])
+        if o_:
+            c["resume_cfg"] = o_
+            return
+    if r.random() < 0.25:
+        c["binary"] = 1                                    # unformatted state (same data through write_state(memory_stream))
     if m < 0.15:
         c["reload"] = 1                                    # the state is loaded back into the same session two steps later
     elif m < 0.35 and c["running"]:
@@ -1001,7 +1097,7 @@ def check(run):
     for i, c in enumerate(cases):
         cu = dict(c)
         cu.pop("resume_at", None)
-        jobs.append(("c%d" % i, c, scenario(cu, "c%d" % i), model_line(cu), 0))
+        jobs.append(("c%d" % i, c, scenario(cu, "c%d" % i), model_line(cu if not c.get("dt_change") else dict(cu, events=cu["events"][:c["dt_change"][0]])), 0))
     scns = [(tag, L) for (tag, c, L, ml, fe) in jobs] + \
            [("r%d" % i, scenario(c, "r%d" % i)) for i, c in enumerate(cases) if c.get("resume_at") is not None]
     impl = run_impl(sim, scns, d)
@@ -1010,16 +1106,40 @@ def check(run):
             ok_, recs_ = impl.get(tag, (False, []))
             if ok_ and len(recs_) == len(c["events"]) and fill_real_forces(c, recs_, table):
                 jobs[n_] = (tag, c, L, model_line(c), fe)
+                if len(c["biases"]) > 1:
+                    run.dist("real-bias: two biases of one kind (bypassing + on the coordinate)%s" % (", one deleted in mid-run" if c.get("delete_bias") else ""))
+                if c["biases"][0].get("tsf", 1) > 1:
+                    run.dist("real-bias with its own timeStepFactor (sleeps between its steps)")
                 run.dist("real-bias:%s:%s%s" % (c["biases"][0]["kw"], "bypass" if c["bypass"] else "on-coordinate", "" if c["nonzero_bias_force"] else ":zero-force"))
             elif c.get("bf_problem"):
                 run.violation("routing:bias-flag-or-force", "bias %s on an extended variable: %s" % (c["biases"][0]["kw"], c["bf_problem"]), {"kind": "scenario", "scenario": L})
     rc, mout, e = V.run_lines(model, [ml for (tag, c, L, ml, fe) in jobs])
     allrecs = {}
     amps = {}
+    dtjobs = []
     for i, (tag, c, scn, ml, fe) in enumerate(jobs):
+        if c.get("dt_change"):
+            # part 1 (old time step) here; part 2 continues in the model from the integrated values with the new time step
+            J = c["dt_change"][0]
+            ok_, recs_ = impl.get(tag, (False, []))
+            run.dist("kind:" + c["kind"])
+            run.dist("engine time step changed in mid-session")
+            if not ok_ or len(recs_) != len(c["events"]) or any(x is None for x in recs_):
+                run.mismatch("scenario:run", {"scenario": scn}, "config_ok=%s records=%d" % (ok_, len(recs_)), "%d engine steps" % len(c["events"]))
+                run.count(tag, False)
+                continue
+            ca = dict(c, events=c["events"][:J])
+            compare(run, ca, tag, scn, {tag: (ok_, recs_[:J])}, ml, mout[i] if i < len(mout) else "")
+            oracles(run, ca, recs_[:J], scn)
+            run.count(tag, True)
+            if not any(x["err"] for x in recs_[:J]) and not math.isnan(recs_[J - 1]["x_ext"]):
+                dtjobs.append((i, tag, J, recs_))
+            continue
         recs = compare(run, c if c.get("resume_at") is None else dict(c, resume_at=None), tag, scn, impl, ml, mout[i] if i < len(mout) else "")
         run.dist("kind:" + c["kind"])
         run.dist("tsf=%d" % c["tsf"])
+        if c.get("start_step"):
+            run.dist("first step of the job: %s" % ("< 2^31" if c["start_step"] < 2 ** 31 else ("< 2^53" if c["start_step"] < 2 ** 53 else ">= 2^53")))
         if recs is None or any(x is None for x in recs):
             run.count(tag, False)
             continue
@@ -1036,6 +1156,18 @@ def check(run):
             amps[i] = energy_amplitude(c, recs)
         if i in (3, 4, 7):
             run.sample({"kind": c["kind"], "scenario_head": scn[:34], "first_records": [{k_: v_ for k_, v_ in x.items()} for x in recs[:3]]})
+    # -- time step changed in mid-session: from there on the integrator (kicks, drifts, damping AND noise amplitude) uses the new one
+    dlines = []
+    for (i, tag, J, recs_) in dtjobs:
+        c = cases[i]
+        c2 = dict(c, dt=c["dt_change"][1])
+        dlines.append(model_line(c2, restart=(J, awake_steps(c)[J - 1][1], recs_[J - 1]["x_ext"], recs_[J - 1]["v_ext"], c["events"][J - 1]["x"])))
+    rc, dmout, e = V.run_lines(model, dlines) if dlines else (0, [], "")
+    for n_, (i, tag, J, recs_) in enumerate(dtjobs):
+        c = cases[i]
+        c2 = dict(c, dt=c["dt_change"][1], stale_until_awake=1)
+        compare(run, c2, tag, jobs[i][2], {tag: (True, recs_[J:])}, dlines[n_], dmout[n_] if n_ < len(dmout) else "", first_event=J)
+        oracles(run, c2, recs_[J:], jobs[i][2], first_event=J, resumed=True)
     # -- second-order scaling of the energy fluctuation: halving the time step divides the amplitude by four
     for i, c in enumerate(cases):
         if c["kind"] == "drift" and i in amps and (i + 1) in amps and cases[i + 1]["kind"] == "drift-twin":
@@ -1065,15 +1197,22 @@ def check(run):
                     xs = float(w_[1])
         except (OSError, ValueError):
             pass
+        if c.get("binary") and not c.get("auto_state"):
+            ms_ = MSTEPS.get("c%d" % i)
+            if ms_ is not None and len(ms_) >= K:
+                sx = None if math.isnan(ms_[K - 1]["saved_x"]) else ms_[K - 1]["saved_x"]
+                sv = None if math.isnan(ms_[K - 1]["saved_x"]) else ms_[K - 1]["saved_v"]
+                last_ = [j_ for j_ in range(K) if aw[j_][2]]
+                xs = c["events"][last_[-1]]["x"] if last_ else 0.0
         rinfo.append((sx, sv, xs))
-        cs = c
+        cs = resumed_case(c)
         if c.get("restart_shift"):
             # the restarted job computes the restart step from other coordinates
             cs = dict(c, events=[dict(e_) for e_ in c["events"]])
             cs["events"][K - 1]["x"] += c["restart_shift"]
             cs.pop("restart_shift")
         rcases.append(cs)
-        rlines.append(model_line(cs, restart=(K - 1, aw[K - 1][1], sx if sx is not None else 0.0, sv if sv is not None else 0.0, xs if xs is not None else 0.0)))
+        rlines.append(model_line(cs, restart=(K - 1, aw[K - 1][1], sx if (sx is not None and sv is not None) else None, sv, xs if xs is not None else 0.0)))
     rc, rmout, e = V.run_lines(model, rlines) if rlines else (0, [], "")
     for n_, (i, tag) in enumerate(rjobs):
         c = cases[i]
@@ -1096,12 +1235,18 @@ def check(run):
             continue
         sx, sv, xs = rinfo[n_]
         ms = MSTEPS.get("c%d" % i)
-        if sx is None or sv is None or xs is None:
-            run.mismatch("state:extended-missing", {"scenario": scn}, "no x/extended_x/extended_v in the saved state", "present")
+        m_none = bool(ms is not None and len(ms) >= K and math.isnan(ms[K - 1]["saved_x"]))
+        if xs is None or ((sx is None) != (sv is None)) or ((sx is None) != m_none and ms is not None):
+            run.mismatch("state:extended-missing", {"scenario": scn}, "x/extended_x/extended_v in the saved state: %r/%r/%r" % (xs, sx, sv),
+                         "extended values %s" % ("absent (coordinate not yet set)" if m_none else "present"))
             continue
-        if ms is not None and len(ms) >= K:
+        if sx is None:
+            run.dist("resumed: state written before the variable's first update (no extended values)")
+        elif ms is not None and len(ms) >= K:
             if not (close(sx, ms[K - 1]["saved_x"], 1e-12) and close(sv, ms[K - 1]["saved_v"], 1e-12)):
                 run.mismatch("state:saved_xv", {"scenario": scn, "model_case": jobs[i][3], "engine_step": K - 1}, (sx, sv), (ms[K - 1]["saved_x"], ms[K - 1]["saved_v"]))
+        if c.get("binary") and not c.get("auto_state"):
+            run.dist("resumed: unformatted (binary) state")
         if c.get("reload"):
             run.dist("resumed: state loaded back into the same session")
         if c.get("auto_state"):
@@ -1116,7 +1261,14 @@ def check(run):
             m_refused = None
         if shift:
             run.dist("resumed: restarted from other coordinates (%s)" % ("refused" if want_refused else "accepted"))
-        if bool(recs2[0]["err"]) != want_refused:
+        other_cfg = bool(c.get("resume_cfg")) and not shift       # (with other parameters the first step may legitimately raise the reflection error)
+        # an error at the first step is a refusal unless the model (which does not know the refusal in its step) raises the reflection error there
+        try:
+            m_first_err = bool(parse_model(rmout[n_])[1][0]["err"])
+        except Exception:
+            m_first_err = False
+        impl_refused = bool(recs2[0]["err"]) and (want_refused or not m_first_err)
+        if impl_refused != want_refused and not other_cfg:
             if want_refused:
                 run.violation("resume:wrong-state-accepted", "the restarted job computes %r at the restart step, the state file has %r (difference above width/2 = %r): accepted"
                               % (cs["events"][K - 1]["x"], xs, c["width"] / 2), rep)
@@ -1124,12 +1276,14 @@ def check(run):
                 run.violation("resume:refused", "state saved after engine step %d (absolute step %d, variable %s) and resumed with coordinates giving %r at the first evaluation (saved value %r, width %r): the restart is refused"
                               % (K - 1, aw[K - 1][1], "awake" if aw[K - 1][2] else "asleep", cs["events"][K - 1]["x"], xs, c["width"]), rep)
             continue
-        if m_refused is not None and m_refused != bool(recs2[0]["err"]) and aw[K - 1][2]:
+        if m_refused is not None and m_refused != impl_refused and aw[K - 1][2] and not other_cfg:
             run.mismatch("restart:refused", {"scenario": scn, "model_case": rlines[n_]}, recs2[0]["err"], m_refused)
             continue
         if want_refused:
             continue
-        if not shift:
+        if c.get("resume_cfg"):
+            run.dist("resumed: by a job with other extended-Lagrangian parameters (%s)" % ",".join(sorted(c["resume_cfg"])))
+        elif not shift:
             resume_oracle(run, c, K, allrecs[i], recs2, scn)
         impl_r = {tag: (ok2, recs2)}
         compare(run, cs, tag, scn, impl_r, rlines[n_], rmout[n_] if n_ < len(rmout) else "", first_event=K - 1)
